@@ -32,6 +32,7 @@ type env struct {
 	pool     *pool
 	contents *syncCollisions
 	messages *syncCollisions
+	prefixes *syncCollisions // message[0:32] -> route / requester that produced it
 
 	vmu     sync.Mutex
 	pending []pendingViol
@@ -262,7 +263,7 @@ func (b *base) requestSignature(ctx sdk.Context, c contentCase, sender, memo str
 func runDirect(e *env, t tally) {
 	b0 := e.pool.get(0)
 	senders := []string{bandtesting.Alice.Address.String(), bandtesting.Bob.Address.String()}
-	memos := []string{"", "a", "a|b", strings.Repeat("m", 100), strings.Repeat("m", 101)}
+	memos := []string{"", "a", "A", " a", "a ", "a|b", strings.Repeat("m", 100), strings.Repeat("m", 101)}
 	times := []int64{b0.baseTime, 0, 1, maxBlockTime}
 	ids := []uint64{1, 2, math.MaxUint64}
 	cases := directContentCases(e)
@@ -326,6 +327,13 @@ func runDirect(e *env, t tally) {
 				return
 			}
 			t.Nontrivial(input)
+			if len(msg) >= 32 {
+				rcanon := fmt.Sprintf("direct(chain=%q,requester=%q,memo=%q)", engine.ChainID, j.sender, j.memo)
+				if other, bad := e.prefixes.add(msg[:32], rcanon); bad {
+					t.Violate(cfg, path, "signing-message:originator-hash-shared-by-different-requesters:direct",
+						fmt.Sprintf("%s: the signed prefix %x is also the prefix of a different originator: %s vs %s", input, msg[:32], other, rcanon))
+				}
+			}
 			want := refMessage(refDirectOriginator(engine.ChainID, j.sender, j.memo), j.unix, id, refContent(j.c.route, j.c.tag, payload))
 			if !bytes.Equal(msg, want) {
 				t.Violate(cfg, path, "signing-message:"+explainMessage(msg, want)+":direct:"+j.c.kind,
@@ -484,6 +492,7 @@ func runInternal(e *env, t tally) {
 // ---- section "tunnel": packets produced and sent by the real tunnel module -----------------------
 
 type tunnelJob struct {
+	srcChain              string
 	dstChain, dstContract string
 	tunnelID              uint64
 	enc                   int32
@@ -500,9 +509,12 @@ var tunnelPriceCfgs = [][]feedState{
 
 func runTunnel(e *env, t tally) {
 	b0 := e.pool.get(0)
-	strs := []string{"a", "b", "ab", "a|b", ff32}
-	if e.quick {
-		strs = []string{"a", "b", "ab", "a|b"}
+	// destination chain ids and contract addresses: split pairs, delimiter-like, strings differing only in
+	// letter case or in leading/trailing spaces, EIP-55 mixed-case hex and its lower-case form, base58,
+	// upper/lower-case chain ids, and the empty string (not legal for a TSS route: observed as rejected)
+	strs := []string{"a", "b", "ab", "a|b", "A", "aB", " a", "a ", "eth", "ETH", eip55Addr, strings.ToLower(eip55Addr), base58Addr, ""}
+	if !e.quick {
+		strs = append(strs, ff32)
 	}
 	var jobs []tunnelJob
 	for _, dc := range strs {
@@ -515,7 +527,10 @@ func runTunnel(e *env, t tally) {
 							if ti == 1 {
 								sid = math.MaxUint64
 							}
-							jobs = append(jobs, tunnelJob{dc, da, id, enc, cfgI, tm, sid})
+							jobs = append(jobs, tunnelJob{engine.ChainID, dc, da, id, enc, cfgI, tm, sid})
+							if id == 1 && cfgI == 0 {
+								jobs = append(jobs, tunnelJob{strings.ToUpper(engine.ChainID), dc, da, id, enc, cfgI, tm, sid})
+							}
 						}
 					}
 				}
@@ -529,10 +544,10 @@ func runTunnel(e *env, t tally) {
 		j := jobs[idx]
 		t := ordered{t, e, idx}
 		states := tunnelPriceCfgs[j.cfg]
-		input := fmt.Sprintf("tunnel(id=%d,dst_chain=%q,dst_contract=%q,enc=%d,feeds=%+v)@time=%d,signing_id=%d", j.tunnelID, j.dstChain, j.dstContract, j.enc, states, j.unix, j.sid)
+		input := fmt.Sprintf("tunnel(src_chain=%q,id=%d,dst_chain=%q,dst_contract=%q,enc=%d,feeds=%+v)@time=%d,signing_id=%d", j.srcChain, j.tunnelID, j.dstChain, j.dstContract, j.enc, states, j.unix, j.sid)
 		path := []string{"section=tunnel", input}
 		t.Eval()
-		ctx := b.atTime(j.unix)
+		ctx := b.atTime(j.unix).WithChainID(j.srcChain)
 		app := b.w.App
 		app.TSSKeeper.SetSigningCount(ctx, j.sid-1)
 		app.TunnelKeeper.SetTunnelCount(ctx, j.tunnelID-1)
@@ -603,7 +618,26 @@ func runTunnel(e *env, t tally) {
 			return
 		}
 		t.Nontrivial(input)
-		want := refMessage(refTunnelOriginator(engine.ChainID, j.tunnelID, j.dstChain, j.dstContract), j.unix, j.sid, refContent("tunnel", oc.tag, payload))
+		// the originator is made of the route as stored on chain
+		dstChain, dstContract := j.dstChain, j.dstContract
+		if rv, err := tun.GetRouteValue(); err == nil {
+			if tr, ok := rv.(*tunneltypes.TSSRoute); ok {
+				dstChain, dstContract = tr.DestinationChainID, tr.DestinationContractAddress
+			}
+		}
+		if dstChain != j.dstChain || dstContract != j.dstContract {
+			t.Saw("tunnel:stored-route-differs-from-request")
+		}
+		// injectivity monitor: routes that differ in any byte of (source chain, tunnel id, destination
+		// chain, contract address) must not share the signed prefix hash(originator)
+		if len(msg) >= 32 {
+			rcanon := fmt.Sprintf("tunnel-route(src_chain=%q,id=%d,dst_chain=%q,dst_contract=%q)", j.srcChain, j.tunnelID, dstChain, dstContract)
+			if other, bad := e.prefixes.add(msg[:32], rcanon); bad {
+				t.Violate(cfg, path, "signing-message:originator-hash-shared-by-different-routes:tunnel",
+					fmt.Sprintf("%s: the signed prefix %x is also the prefix of a different route: %s vs %s", input, msg[:32], other, rcanon))
+			}
+		}
+		want := refMessage(refTunnelOriginator(j.srcChain, j.tunnelID, dstChain, dstContract), j.unix, j.sid, refContent("tunnel", oc.tag, payload))
 		if !bytes.Equal(msg, want) {
 			t.Violate(cfg, path, "signing-message:"+explainMessage(msg, want)+":tunnel",
 				fmt.Sprintf("%s: Signing.Message = %s, expected %s (stored packet seq=%d created_at=%d prices=%+v)", input, short(msg), short(want), packet.Sequence, packet.CreatedAt, pstates))
@@ -613,7 +647,7 @@ func runTunnel(e *env, t tally) {
 			t.Violate(cfg, path, "content-decode:tunnel:"+oc.tag, fmt.Sprintf("%s: %v", input, derr))
 			return
 		}
-		mcanon := fmt.Sprintf("tunnel(%q,%d,%q,%q)/time=%d/id=%d/%s", engine.ChainID, j.tunnelID, j.dstChain, j.dstContract, j.unix, j.sid, canon)
+		mcanon := fmt.Sprintf("tunnel(%q,%d,%q,%q)/time=%d/id=%d/%s", j.srcChain, j.tunnelID, dstChain, dstContract, j.unix, j.sid, canon)
 		if other, bad := e.messages.add(msg, mcanon); bad {
 			t.Violate(cfg, path, "signing-message:collision", fmt.Sprintf("two different requests share the signed message %s: %s and %s", short(msg), other, mcanon))
 		}
@@ -696,6 +730,13 @@ func runTransition(e *env, t tally) {
 		t.Nontrivial(input)
 		tc := transitionCase(g2.PubKey, exec.Unix())
 		payload, canon, _ := tc.want(unix)
+		if len(msg) >= 32 {
+			rcanon := fmt.Sprintf("direct(chain=%q,requester=%q,memo=%q)", engine.ChainID, b.bandtssAddr, "")
+			if other, bad := e.prefixes.add(msg[:32], rcanon); bad {
+				t.Violate(cfg, path, "signing-message:originator-hash-shared-by-different-requesters:transition",
+					fmt.Sprintf("%s: the signed prefix %x is also the prefix of a different originator: %s vs %s", input, msg[:32], other, rcanon))
+			}
+		}
 		want := refMessage(refDirectOriginator(engine.ChainID, b.bandtssAddr, ""), unix, sid, refContent("bandtss", "Transition", payload))
 		if !bytes.Equal(msg, want) {
 			t.Violate(cfg, path, "signing-message:"+explainMessage(msg, want)+":transition",
